@@ -75,11 +75,19 @@ func New(kind, tmpRoot string, opts ...gofakes3.Option) (*Instance, error) {
 	return inst, nil
 }
 
+// BackendTimeSource, when set, is handed to the backends that take a time source (mem, bolt)
+// instead of the fixed one; the front end keeps the fixed time source.
+var BackendTimeSource gofakes3.TimeSource
+
 func (inst *Instance) open() error {
 	ts := gofakes3.FixedTimeSource(FixedTime)
+	bts := gofakes3.TimeSource(ts)
+	if BackendTimeSource != nil {
+		bts = BackendTimeSource
+	}
 	switch inst.Kind {
 	case "mem":
-		inst.Backend = s3mem.New(s3mem.WithTimeSource(ts), s3mem.WithVersionSeed(1))
+		inst.Backend = s3mem.New(s3mem.WithTimeSource(bts), s3mem.WithVersionSeed(1))
 	case "bolt":
 		db, err := bolt.Open(filepath.Join(inst.Dir, "db.bolt"), 0600, &bolt.Options{NoSync: true, NoFreelistSync: true})
 		if err != nil {
@@ -87,7 +95,7 @@ func (inst *Instance) open() error {
 		}
 		db.NoSync = true
 		inst.boltDB = db
-		inst.Backend = s3bolt.New(db, s3bolt.WithTimeSource(ts))
+		inst.Backend = s3bolt.New(db, s3bolt.WithTimeSource(bts))
 		inst.closers = append(inst.closers, func() { db.Close() })
 	case "fsM-mem":
 		if inst.memFs == nil {
